@@ -9,7 +9,7 @@ TARGETS = ["NetqasmVerif.Props.C04"]
 M = "NetqasmVerif.Props.C04"
 THEOREMS = [(M, "NQ.C04." + n) for n in [
     "fault_atomic", "fault_atomic_inv", "fault_atomic_reachable", "fault_atomic_interleaved",
-    "fault_atomic_strict", "fault_names_line", "fault_lifts",
+    "fault_atomic_strict", "fault_stops", "fault_names_line", "fault_lifts",
     "store_undefined_faults", "load_undefined_faults", "ret_undefined_faults",
     "addm_bad_modulus_faults", "subm_bad_modulus_faults", "double_alloc_faults",
     "free_unallocated_faults", "store_past_end_faults", "load_past_end_faults", "undef_past_end_faults",
@@ -145,7 +145,7 @@ def run(ctx):
                 "across subroutines); "
                 "a scenario is non-trivial when at least 3 instructions were executed; distinct by scenario JSON")
     rng = ctx.rng
-    n_random = 120000 if ctx.thorough else 7500
+    n_random = 90000 if ctx.thorough else 7500
     drv = ctx.driver
 
     def differs(c):
